@@ -460,6 +460,30 @@ func checkContent(h *History, vs []*opView) {
 		}
 	}
 	sort.SliceStable(ds, func(i, j int) bool { return ds[i].at < ds[j].at })
+	// C04: a response that matches no query of its transport (unknown id) and
+	// carries an answer generated for a question that nobody asked on that
+	// transport is another client's answer delivered here
+	asked := map[int]map[string]bool{}
+	for _, o := range h.Ops {
+		if asked[o.Op.Conn] == nil {
+			asked[o.Op.Conn] = map[string]bool{}
+		}
+		asked[o.Op.Conn][o.Op.Token] = true
+	}
+	for _, cr := range h.Conns {
+		if cr == nil || cr.Conn == nil {
+			continue
+		}
+		for _, r := range cr.Unmatched {
+			um, err := refdns.Parse(r.B)
+			if err != nil || um == nil {
+				continue
+			}
+			if meta, ok := peers.DecodeMeta(um); ok && !asked[cr.Conn.Idx][meta.Token] {
+				h.S.Fail("C04", "misdelivered-response", "conn %d (%s): a response under id %d that was never sent on this transport carries the answer generated for token %s (upstream %s serial %d): another query's answer", cr.Conn.Idx, cr.Proto, um.ID, meta.Token, meta.Up, meta.Serial)
+			}
+		}
+	}
 	for _, d := range ds {
 		v, m := d.v, d.m
 		op := v.o.Op
@@ -481,6 +505,12 @@ func checkContent(h *History, vs []*opView) {
 				}
 			}
 			continue
+		}
+		if v.q != nil && op.Raw == nil && (!v.supported || v.outcome.Kind != "forward") {
+			// never forwarded: whatever generated answer it carries was made for someone else
+			if meta, ok := peers.DecodeMeta(m); ok && meta.Token != op.Token {
+				h.S.Fail("C04", "foreign-answer", "%s (not forwarded): answer was generated for token %s (upstream %s serial %d)", name, meta.Token, meta.Up, meta.Serial)
+			}
 		}
 		if v.q == nil || op.Raw != nil || !v.supported || v.outcome.Kind != "forward" || m.Rcode() == 2 && len(m.An)+len(m.Ns)+len(stripOPT(m.Ar)) == 0 {
 			continue
